@@ -153,9 +153,47 @@ def inline_local_aliases(body):
     return body
 
 
+LOG_UNSAFE = []        # (snippet) of log lines whose arguments are more than names (filled per Model)
+LOG_SAFE_METHODS = {"len", "is_some", "is_none", "is_empty", "as_ref", "as_slice", "as_str", "as_bytes", "bits", "err", "ok",
+                    "is_ok", "is_err", "capacity", "copied", "cloned", "clone", "iter", "count"}
+
+
+def log_args_safe(args):
+    """may the arguments of a log line be ignored?  Only if evaluating them can neither panic nor do
+    anything: literals, names, field paths, references, and a few pure accessor calls.  Indexing,
+    slicing, arithmetic, other calls, macros and `?` are not ignorable (they are evaluated when a
+    log-* feature is on)."""
+    t = re.sub(r'"(?:[^"\\]|\\.)*"', '""', args)
+    if re.search(r"[\[\]{}?!+\-*/%<>|^]|\bas\b|\bif\b|\bmatch\b|\bunsafe\b", t.replace("&", " ").replace("* ", " ").replace("->", " ")):
+        # `*x` deref of a plain name is fine, everything else that matched is not
+        if re.search(r"[\[\]{}?!+\-/%<>|^]|\bas\b|\bif\b|\bmatch\b|\bunsafe\b", t) or re.search(r"\w \* \w|\d \*|\* \d", t):
+            return False
+    for m in re.finditer(r"(\w+) \(([^()]*)\)", t):
+        if m.group(1) not in LOG_SAFE_METHODS or m.group(2).strip():
+            return False
+    if re.search(r"\(\s*\(", t):
+        return False
+    return True
+
+
+def _strip_log(body):
+    out, pos = "", 0
+    for m in LOG_RX.finditer(body):
+        inner = m.group(0)
+        args = inner[inner.index("(") + 1:inner.rindex(")")]
+        if log_args_safe(args):
+            out += body[pos:m.start()]
+        else:
+            LOG_UNSAFE.append(norm_tokens(inner)[:160])
+            out += body[pos:m.end()]
+        pos = m.end()
+    return out + body[pos:]
+
+
 def strip_logging(x):
-    """logging macro invocations carry no behaviour any property speaks about: drop them from every
-    function / arm body before anything is read (so they can be added, removed or reworded freely)"""
+    """logging macro invocations whose arguments are plain names carry no behaviour any property
+    speaks about: drop them from every function / arm body before anything is read (so they can be
+    added, removed or reworded freely).  Log lines with richer arguments stay (see `log_args_safe`)."""
     if isinstance(x, dict):
         if x.get("kind") == "fn" and isinstance(x.get("body"), str) and USE_AS_RX.search(x["body"]):
             aliases = [(m.group(1), m.group(2)) for m in USE_AS_RX.finditer(x["body"])]
@@ -167,7 +205,7 @@ def strip_logging(x):
                                 arm[key] = re.sub(r"(?<![\w])%s\b" % re.escape(alias), path, arm[key])
         for k, v in list(x.items()):
             if k == "body" and isinstance(v, str):
-                x[k] = inline_local_aliases(LOG_RX.sub("", v))
+                x[k] = inline_local_aliases(_strip_log(v))
             else:
                 strip_logging(v)
     elif isinstance(x, list):
@@ -177,7 +215,9 @@ def strip_logging(x):
 
 class Model:
     def __init__(self, ast):
+        del LOG_UNSAFE[:]
         strip_logging(ast)
+        self.logging_unsafe = sorted(set(LOG_UNSAFE))
         self.ast = ast
         self.items = []  # (file, item)
         for f, v in sorted(ast["files"].items()):
@@ -992,7 +1032,7 @@ class Model:
         t = {}
         groups = [("op", self._t_op), ("resp", self._t_resp), ("status", self._t_status), ("bitflags", self._t_bitflags),
                   ("dispatch", self._t_dispatch), ("consts", self._t_consts), ("strhelpers", self._t_strhelpers), ("fingerprints", self._t_fingerprints),
-                  ("gating", self._t_gating), ("layouts", self._t_layouts), ("u2fprog", self._t_u2fprog), ("arb", self._t_arb), ("arbtree", self._t_arbtree)]
+                  ("gating", self._t_gating), ("dictionary", self._t_dictionary), ("layouts", self._t_layouts), ("u2fprog", self._t_u2fprog), ("arb", self._t_arb), ("arbtree", self._t_arbtree)]
         for aspect, fn in groups:
             part = {}
             try:
@@ -1003,6 +1043,15 @@ class Model:
                 errors[aspect] = str(e)
                 part = {}
             t.update(part)
+        if errors is not None:
+            dbg = sorted({(it.get("module", "") + "::" + it.get("name", "?")) for _, top in self.items
+                          for it in ([top] + list(top.get("items", []) if top["kind"] in ("impl", "trait") else []))
+                          if it.get("kind") == "fn" and re.search(r"debug_assert|debug_assertions", it.get("body") or "")})
+            if dbg:
+                errors["profile"] = "behaviour may depend on the build profile (debug_assert! / cfg(debug_assertions)) in: " + ", ".join(dbg)[:400]
+        if errors is not None and self.logging_unsafe:
+            errors["logging"] = "log lines whose arguments are evaluated code (active with the log-* features): " + \
+                                " | ".join(self.logging_unsafe)[:600]
         if baseline is not None:
             for k, v in baseline.get("tables", {}).items():
                 t.setdefault(k, v)
@@ -1045,6 +1094,13 @@ class Model:
             if tr == "From<CtapMappingError>" and st == "Error":
                 fn = [f for f in imp["items"] if f["kind"] == "fn" and f["name"] == "from"][0]
                 t["mapping_error"] = self.mapping_error(fn)
+        # the inherent `Operation::into_u8` must be the `From<Operation> for u8` table, not a second one
+        for imp in self.impls:
+            if imp["trait"] is None and imp["self_ty"].strip() == "Operation":
+                for f in imp["items"]:
+                    if f["kind"] == "fn" and f["name"] == "into_u8":
+                        if f["body"].replace(" ", "") not in ("{self.into()}", "{u8::from(self)}", "{<u8asFrom<Self>>::from(self)}"):
+                            raise Untranslatable("Operation::into_u8", "does not delegate to From<Operation> for u8")
         # Request::deserialize switch
         for imp in self.impls:
             if imp["trait"] is None and imp["self_ty"].replace(" ", "").startswith("Request<") and imp["module"] == "ctap2":
@@ -1174,6 +1230,35 @@ class Model:
                     ) or (tr.startswith("Arbitrary")):
                         fps[f"{imp['module']}::{st}::{tr}::{f['name']}"] = fingerprint(f["body"])
         t["fingerprints"] = fps
+
+    def _t_dictionary(self, t, feats):
+        """string / char / integer literals of every function body: fed to the case generators as a fuzzing
+        dictionary, so that a value the code treats specially is among the values tried"""
+        strs, ints = set(), set()
+        def scan(body):
+            for m in re.finditer(r'b?"((?:[^"\\]|\\.)*)"', body):
+                try:
+                    v = bytes(m.group(1), "utf-8").decode("unicode_escape") if "\\u{" not in m.group(1) else \
+                        re.sub(r"\\u\{([0-9a-fA-F]+)\}", lambda k: chr(int(k.group(1), 16)), m.group(1))
+                except Exception:
+                    continue
+                if 0 < len(v) <= 24 and "{" not in v:
+                    strs.add(v)
+            for m in re.finditer(r"'(\\u\{([0-9a-fA-F]+)\}|\\.|[^'\\])'", body):
+                ch = m.group(1)
+                try:
+                    strs.add(chr(int(m.group(2), 16)) if m.group(2) else bytes(ch, "utf-8").decode("unicode_escape"))
+                except Exception:
+                    pass
+            for m in re.finditer(r"(?<![\w.])(0x[0-9a-fA-F_]+|\d[\d_]*)(?:u8|u16|u32|u64|usize|i32|i64)?(?![\w.])", body):
+                v = parse_int_lit(m.group(1))
+                if v is not None and v < 2 ** 64:
+                    ints.add(v)
+        for _, top in self.items:
+            for it in [top] + list(top.get("items", []) if top["kind"] in ("impl", "trait") else []):
+                if it.get("kind") == "fn" and it.get("body"):
+                    scan(it["body"])
+        t["dictionary"] = {"strings": sorted(strs)[:200], "ints": sorted(ints)[:200]}
 
     def _t_gating(self, t, feats):
         # features gating anything other than derives / the arbitrary module
